@@ -56,7 +56,16 @@ type EmbDeep struct {
 	}
 }
 
+// DurRec is a struct element with duration pointers, for slices and maps of
+// structs (the transformer recurses into those).
+type DurRec struct {
+	Wait  *time.Duration
+	Waits []*time.Duration
+	Note  string
+}
+
 func init() {
+	shape.RegisterBase("DurRec", reflect.TypeOf(DurRec{}))
 	shape.RegisterBase("Phase", reflect.TypeOf(Phase(0)))
 	shape.RegisterBase("Tiny", reflect.TypeOf(Tiny(0)))
 	shape.RegisterBase("Big", reflect.TypeOf(Big(0)))
@@ -187,6 +196,29 @@ type cfgNamed struct {
 	Tagged string `dials:"tagged_name" json:"json_name" yaml:"yaml_name" toml:"toml_name"`
 }
 
+// cfgPtrElems has containers whose ELEMENTS are pointers: a document can then
+// spell a null inside a list or map, which reaches the type-substituting and
+// converting code with nil elements.
+type cfgPtrElems struct {
+	Timeouts   []*time.Duration
+	ByTimeout  map[string]*time.Duration
+	Pair       [2]*time.Duration
+	PtrWaits   *[]time.Duration
+	PtrPtr     **time.Duration
+	Deep       map[string][]*time.Duration
+	Ints       []*int
+	Strs       map[string]*string
+	Levels     []*shape.Level
+	NamedWaits map[string]*shape.Timeout
+	Stamps     []*shape.Stamp
+	Colors     map[string]*shape.Color
+	Recs       []DurRec
+	RecByName  map[string]*DurRec
+	PlainWait  time.Duration
+	PtrWait    *time.Duration
+	Waits      []time.Duration
+}
+
 type fixedType struct {
 	name string
 	t    reflect.Type
@@ -203,6 +235,7 @@ var decoderTypes = []fixedType{
 	mkFixed("cfgFlat", cfgFlat{}),
 	mkFixed("cfgNested", cfgNested{}),
 	mkFixed("cfgNamed", cfgNamed{}),
+	mkFixed("cfgPtrElems", cfgPtrElems{}), // appended: selectors of older corpus cases keep their meaning modulo the old length only for sel < 4
 }
 
 // cfgEnv is the fixed type of the environment target: every predeclared type
